@@ -177,20 +177,30 @@ def run(F, R, tier):
          not co, "; ".join(sorted({v[1] for v in co}))[:300], F.loc(f))
     # VM side
     arms = vm_arms(F, R)
-    bo = F.fn("vm::interpreter::VM::binary_op")
-    if R.anchor("VM::binary_op", bo):
-        b = H.body_of(bo)
-        lets = [(s["pat"].get("name"), H.render(s["init"])) for s in b.get("stmts", []) if s["k"] == "let"][:2]
-        R.ob("vm-operand-order", "binary_op pops the right operand first, then the left", lets == [("right", "self.pop(line)?"), ("left", "self.pop(line)?")], str(lets), F.loc(bo))
-        calls = [H.render(c) for c in H.walk(b) if c.get("k") == "call" and H.is_local(c.get("f") or {}, "op")]
-        R.ob("vm-operand-order", "binary_op applies op(left, right)", bool(calls) and all(c == "op(&left, &right)" for c in calls), str(sorted(set(calls))), F.loc(bo))
-    bw = F.fn("vm::interpreter::VM::bitwise_op")
-    if R.anchor("VM::bitwise_op", bw):
-        b = H.body_of(bw)
-        lets = [(s["pat"].get("name"), H.render(s["init"])) for s in b.get("stmts", []) if s["k"] == "let"][:2]
-        calls = [H.render(c) for c in H.walk(b) if c.get("k") == "call" and H.is_local(c.get("f") or {}, "op")]
-        R.ob("vm-operand-order", "bitwise_op pops right then left and applies op(left, right)", lets == [("right", "self.pop(line)?"), ("left", "self.pop(line)?")] and
-             bool(calls) and all(c == "op(&left, &right)" for c in calls), "%s %s" % (lets, calls), F.loc(bw))
+    from .lib.vmarms import operator_dispatchers
+    disp = operator_dispatchers(F, R)
+
+    def pops_then_apply(g):
+        """(popped-first name, popped-second name, [rendered closure applications]) of a dispatcher body"""
+        b = H.body_of(g)
+        lets = [(s_["pat"].get("name"), H.render(s_["init"])) for s_ in b.get("stmts", []) if s_["k"] == "let"][:2]
+        params = {p_.get("name") for p_ in g["hir"]["params"]}
+        fnp = [p_.get("name") for p_ in g["hir"]["params"] if "fn(" in str(p_.get("ty", ""))]
+        calls = [c for c in H.walk(b) if c.get("k") == "call" and H.strip(c.get("f") or {}).get("k") == "path" and H.strip(c["f"])["res"].get("r") == "local"
+                 and H.strip(c["f"])["res"].get("name") in params]
+        return lets, [H.render(c) for c in calls], [H.strip(c["f"])["res"]["name"] for c in calls]
+    for role, what in (("binary", "binary_op"), ("bitwise", "bitwise_op")):
+        g = F.fn(disp[role]) if disp[role] else None
+        if not R.anchor("VM::" + what, g):
+            continue
+        lets, calls, fnames = pops_then_apply(g)
+        popped = len(lets) == 2 and all(re.fullmatch(r"self\.pop\(\w+\)\?", t) for _, t in lets)
+        R.ob("vm-operand-order", "%s pops the right operand first, then the left" % what, popped, str(lets), F.loc(g))
+        if popped:
+            first, second = lets[0][0], lets[1][0]
+            want_call = lambda fn: "%s(&%s, &%s)" % (fn, second, first)
+            R.ob("vm-operand-order", "%s applies op(left, right): the value popped second is the left operand" % what,
+                 bool(calls) and all(c == want_call(fn) for c, fn in zip(calls, fnames)), str(sorted(set(calls))), F.loc(g))
     if arms:
         for op, want in sorted(VM_CLOSURES.items()):
             a = arms.get(op)
